@@ -1,9 +1,9 @@
 #!/bin/bash
 # usage: seeded_matrix.sh [ids...]  — runs each /verif/seeded/<id>/patch.diff through try_mutation.sh (scratch worktree,
 # never /repo) with the quick check of the property it breaks, and prints one line per change: detected or not,
-# violation keys, seconds. Output is appended to /tmp/mut/matrix.txt.
+# violation keys, seconds. Output is appended to /verif/seeded/matrix.log (the latest line per id counts).
 cd /verif
-ids=${@:-$(ls seeded | grep -v MATRIX)}
+ids=${@:-$(ls -d seeded/*/ | xargs -n1 basename)}
 mkdir -p /tmp/mut
 for id in $ids; do
   prop=${id:0:3}
@@ -13,5 +13,5 @@ for id in $ids; do
   rc=$(echo "$out" | grep -o 'try_mutation: exit [0-9]*' | awk '{print $3}')
   keys=$(echo "$out" | grep -o 'VIOLATION property=[^ ]* replay=[^ ]*' | sed 's/.*replays\///; s/-s[0-9]*-r[0-9]*\.json//' | sort -u | tr '\n' ' ')
   e=$(date +%s)
-  echo "$id prop=$prop rc=$rc secs=$((e-s)) keys=[$keys]" | tee -a /tmp/mut/matrix.txt
+  echo "$id prop=$prop rc=$rc secs=$((e-s)) keys=[$keys]" | tee -a /verif/seeded/matrix.log
 done
